@@ -161,12 +161,17 @@ def _run_ground(text, tl, seed):
     return "unknown", "no ground model in %d tries" % tries
 
 
-def _worker(inq, outq):
+def _worker(conn):
+    """one job at a time over a private duplex pipe (a shared result queue can be left locked when a worker is killed
+    at its hard deadline while writing, which then blocks every other worker)."""
     import signal
 
     signal.signal(signal.SIGINT, signal.SIG_IGN)
     while True:
-        job = inq.get()
+        try:
+            job = conn.recv()
+        except (EOFError, OSError):
+            return
         if job is None:
             return
         jid, engine, text, tl, seed = job
@@ -184,7 +189,10 @@ def _worker(inq, outq):
                 r, info = "unknown", "no such engine"
         except Exception as e:
             r, info = "unknown", "error: %s: %s" % (type(e).__name__, str(e)[:200])
-        outq.put((jid, engine, r, info, time.time() - t0))
+        try:
+            conn.send((jid, engine, r, info, time.time() - t0))
+        except (EOFError, OSError, BrokenPipeError):
+            return
 
 
 class Pool:
@@ -192,51 +200,65 @@ class Pool:
         self.ctx = mp.get_context("spawn")
         self.n = n
         self.workers = []
-        self.outq = self.ctx.Queue()
 
     def _spawn(self):
-        inq = self.ctx.Queue()
-        p = self.ctx.Process(target=_worker, args=(inq, self.outq), daemon=True)
+        parent, child = self.ctx.Pipe(duplex=True)
+        p = self.ctx.Process(target=_worker, args=(child,), daemon=True)
         p.start()
-        return {"p": p, "inq": inq, "job": None, "deadline": None}
+        child.close()
+        return {"p": p, "conn": parent, "job": None, "deadline": None}
+
+    def _retire(self, w):
+        try:
+            w["p"].kill()
+        except Exception:
+            pass
+        try:
+            w["conn"].close()
+        except Exception:
+            pass
 
     def run(self, jobs, grace=10.0):
         """jobs: list of (jid, engine, text, timeout, seed) -> dict jid,engine -> (verdict, info, secs)"""
+        from multiprocessing.connection import wait as _wait
+
         res = {}
         pending = list(jobs)[::-1]
         n = min(self.n, max(1, len(jobs)))
         while len(self.workers) < n:
             self.workers.append(self._spawn())
         active = 0
-        import queue
-
         while pending or active:
-            for w in self.workers:
+            for i, w in enumerate(self.workers):
                 if w["job"] is None and pending:
                     j = pending.pop()
+                    try:
+                        w["conn"].send(j)
+                    except (OSError, BrokenPipeError, ValueError):
+                        # the idle worker is gone: replace it and hand the job to the new one
+                        self._retire(w)
+                        w = self.workers[i] = self._spawn()
+                        w["conn"].send(j)
                     w["job"] = j
                     w["deadline"] = time.time() + j[3] + grace
-                    w["inq"].put(j)
                     active += 1
-            try:
-                jid, engine, r, info, secs = self.outq.get(timeout=0.2)
+            busy = [w for w in self.workers if w["job"] is not None]
+            ready = _wait([w["conn"] for w in busy], timeout=0.2) if busy else []
+            for conn in ready:
+                w = next(x for x in busy if x["conn"] is conn)
+                try:
+                    jid, engine, r, info, secs = conn.recv()
+                except (EOFError, OSError):
+                    continue  # handled below as a dead worker
                 res[(jid, engine)] = (r, info, secs)
-                for w in self.workers:
-                    if w["job"] is not None and w["job"][0] == jid and w["job"][1] == engine:
-                        w["job"] = None
-                        active -= 1
-                        break
-            except queue.Empty:
-                pass
+                w["job"] = None
+                active -= 1
             now = time.time()
             for i, w in enumerate(self.workers):
                 if w["job"] is not None and (now > w["deadline"] or not w["p"].is_alive()):
                     j = w["job"]
                     why = "hard timeout" if w["p"].is_alive() else "worker died"
-                    try:
-                        w["p"].kill()
-                    except Exception:
-                        pass
+                    self._retire(w)
                     res[(j[0], j[1])] = ("unknown", why, j[3])
                     self.workers[i] = self._spawn()
                     active -= 1
@@ -245,13 +267,17 @@ class Pool:
     def close(self):
         for w in self.workers:
             try:
-                w["inq"].put(None)
+                w["conn"].send(None)
             except Exception:
                 pass
         for w in self.workers:
             w["p"].join(timeout=1)
             if w["p"].is_alive():
                 w["p"].kill()
+            try:
+                w["conn"].close()
+            except Exception:
+                pass
         self.workers = []
 
 
